@@ -61,6 +61,11 @@ func vpC01_O5() {
 	vpAssume(err == nil)
 	vpAssume(proof.C.Sign() != 0) // a zero challenge has probability 2^-256
 	c := proof.C
+	// history: the very proof object may have been verified once before it is altered (a verifier
+	// that re-verifies an object it holds must not rely on what it derived from the earlier content)
+	if vpBool("verifiedBeforeTamper") {
+		vpAssert("the honest proof verifies before it is altered", proof.Verify(pk, ctx, nonce, false))
+	}
 
 	delta := vpBig("delta")
 	x := vpBig("x")
